@@ -29,7 +29,7 @@ import c11_lib as L
 
 L.reset_default_registry()  # records the baseline of the default registry (string cache, table)
 
-PROOF_MODULES = ["UnytProofs.C11", "UnytProofs.C11Tab", "UnytProofs.C11Tab2"]
+PROOF_MODULES = ["UnytProofs.C11", "UnytProofs.C11Tab", "UnytProofs.C11Tab2", "UnytProofs.C11Tab3"]
 
 LIB_SRC = open(os.path.join(os.path.dirname(os.path.abspath(__file__)), "c11_lib.py"), encoding="utf-8").read()
 PRE = (LIB_SRC + "\nimport unyt, sympy\nfrom unyt import Unit, unyt_array, unyt_quantity\n"
@@ -48,6 +48,10 @@ FAMILIES = {
     "unit-system": ("reg = UnitRegistry(unit_system='cgs')\n", ""),
     "stale": (ADDED, "reg.modify('vfoo', 5.0)\n"),
     "stale-quantity": (ADDED, "reg.modify('vfoo', unyt_quantity(7.0, 'km', registry=reg))\n"),
+    # default symbols re-declared with exactly the default data and the OTHER prefixable flag
+    # (mile, Msun: made prefixable; bar: made non-prefixable)
+    "redeclared-flag": ("reg = UnitRegistry()\nredeclare(reg, 'mile', 'prefixable')\nredeclare(reg, 'bar', 'prefixable')\n"
+                        "redeclare(reg, 'Msun', 'prefixable')\n", ""),
 }
 
 CORE_UNITS = {
@@ -59,6 +63,7 @@ CORE_UNITS = {
     "unit-system": ["km", "g", "degree", "K", "erg"],
     "stale": ["vfoo", "kvfoo", "vfoo/s"],
     "stale-quantity": ["vfoo"],
+    "redeclared-flag": ["mile", "kmile", "bar", "kMsun"],
 }
 
 DATA = {
@@ -181,6 +186,8 @@ def unit_class(family, unit):
         return "delta-display"
     if family in ("added", "stale", "stale-quantity") and ("vfoo" in unit or unit in ("vang", "vtem", "vlog")):
         return "user-symbol"
+    if family == "redeclared-flag" and unit in ("kmile", "kMsun"):
+        return "user-symbol"  # a spelling that exists only through the user's declaration
     return "other"
 
 
@@ -361,6 +368,170 @@ REGISTRY_DIFFS = {"added-lost", "default-lost", "removed-default-back", "spuriou
 def short(o):
     s = repr(o)
     return s if len(s) < 140 else s[:137] + "..."
+
+
+# ----------------------------------------------------------------------------------------
+# registry contents field by field: registries whose rows differ from the default table in ONE field
+# (value | dimensions | offset | prefixable flag, both directions | tex), added / modified / removed
+# symbols, through every route incl. the registry-only ones; oracle `c11_lib.contents_check`
+
+REDECL_SYMS = ["mile", "ft", "bar", "AU", "ly", "hr", "lb", "pc", "eV",    # default tex = what add() guesses
+               "Msun", "degC", "day", "inch", "degree", "Ω"]           # default tex differs from the guess
+REDECL_FIELDS = ["value", "dimensions", "offset", "prefixable", "tex"]
+ADD_SRC = {
+    "vfoo": ("added-prefixable", "reg.add('vfoo', 3.0, D.length, prefixable=True)\n"),
+    "vbar": ("added", "reg.add('vbar', 7.0, D.mass)\n"),
+    "vtem": ("added-offset", "reg.add('vtem', 2.0, D.temperature, offset=10.0)\n"),
+    "vpre": ("added-prefixable", "reg.add('vpre', 4.0, D.time, tex_repr=r'\\rm{v}', offset=0.5, prefixable=True)\n"),
+}
+
+
+def decl_src(d):
+    if d[0] == "redeclare":
+        return f"redeclare(reg, {d[1]!r}, {d[2]!r}, {d[3]!r})\n"
+    if d[0] == "modify":
+        return f"reg.modify({d[1]!r}, reg.lut[{d[1]!r}][0] * 2.0)\n"
+    if d[0] == "remove":
+        return f"reg.remove({d[1]!r})\n"
+    if d[0] == "add":
+        return ADD_SRC[d[1]][1]
+    raise ValueError(d)
+
+
+def decl_variant(d, dflt):
+    """the seed-independent name of what was done to the symbol"""
+    if d[0] == "redeclare":
+        if d[2] == "prefixable":
+            return "redeclared-prefixable-" + ("off" if dflt[d[1]][4] else "on")
+        return "redeclared-" + ("same" if d[2] == "none" else d[2])
+    if d[0] == "modify":
+        return "modified"
+    if d[0] == "remove":
+        return "removed"
+    return ADD_SRC[d[1]][0]
+
+
+def content_src(decls, usym, data, route, proto):
+    cls, d = DATA[data]
+    return ("reset_default_registry()\nreg = UnitRegistry()\n" + "".join(decl_src(x) for x in decls)
+            + f"q = {cls}({d}, cold_unit({usym!r}, reg))\n"
+            + f"r = restore_contents({route!r}, q, {proto!r})\n")
+
+
+def content_plan(tier, rng):
+    """(label, decls, usym, data, route, protocol) jobs"""
+    import pickle
+    from unyt._unit_lookup_table import default_unit_symbol_lut as dflt
+
+    protos = list(range(2, pickle.HIGHEST_PROTOCOL + 1))
+    syms = [s_ for s_ in REDECL_SYMS if s_ in dflt]
+
+    def own(sym):
+        return "km" if sym == "Ω" else sym
+
+    singles, multis = [], []
+    for sym in syms:
+        for f in REDECL_FIELDS:
+            singles.append((f"one:{sym}:{f}", (("redeclare", sym, f, "auto"),), own(sym)))
+        if L.symbol_class(sym) == "tex-guess":
+            singles.append((f"one:{sym}:prefixable:explicit-tex", (("redeclare", sym, "prefixable", "explicit"),), own(sym)))
+    for f in REDECL_FIELDS + ["none"]:
+        multis.append((f"all:{f}", tuple(("redeclare", s_, f, "auto") for s_ in syms), "mile"))
+    k = rng.randrange(len(REDECL_FIELDS))
+    multis.append(("mixed", tuple(("redeclare", s_, REDECL_FIELDS[(i + k) % len(REDECL_FIELDS)], "auto") for i, s_ in enumerate(syms) if s_ != "lb")
+                   + (("add", "vfoo"), ("add", "vtem"), ("modify", "g"), ("remove", "lb")), "vfoo"))
+    multis.append(("added", tuple(("add", n) for n in ADD_SRC), "vpre"))
+    multis.append(("modified:g", (("modify", "g"),), "g"))
+    multis.append(("modified:mile", (("modify", "mile"),), "mile"))
+    multis.append(("modified:Msun", (("modify", "Msun"),), "Msun"))
+    multis.append(("removed:lb", (("remove", "lb"),), "km"))
+    multis.append(("removed:bar", (("remove", "bar"),), "km"))
+    multis.append(("removed:Msun", (("remove", "Msun"),), "km"))
+    multis.append(("added+modified+removed", (("add", "vfoo"), ("add", "vbar"), ("modify", "g"), ("modify", "ft"), ("remove", "lb"), ("remove", "inch")), "kvfoo"))
+    jobs = []
+    n = 0
+    for group, full in ((singles, tier == "thorough"), (multis, True)):
+        for label, decls, usym in group:
+            for route in L.CONTENT_ROUTES:
+                n += 1
+                data = "a" if (route == "saveLoadTxt" or n % 2) else "q"
+                if route in L.PICKLE_ROUTES:
+                    for p in (protos if full else [protos[n % len(protos)]]):
+                        jobs.append((label, decls, usym, data, route, p))
+                else:
+                    jobs.append((label, decls, usym, data, route, None))
+    # seeded extras: any symbol of the default table, any field, any route
+    allsyms = sorted(dflt)
+    for i in range(60 if tier == "quick" else 600):
+        sym = rng.choice(allsyms)
+        f = rng.choice(REDECL_FIELDS)
+        route = rng.choice(L.CONTENT_ROUTES)
+        tex = rng.choice(["auto", "explicit"])
+        usym = sym if (sym.isascii() and sym.isidentifier()) else "km"
+        jobs.append((f"seeded:{f}", (("redeclare", sym, f, tex),), usym, "a", route, rng.choice(protos) if route in L.PICKLE_ROUTES else None))
+    return jobs
+
+
+def content_key(route, variant, cls, observed, spurious_removed):
+    if route == "saveLoadTxt":
+        return "C11|saveLoadTxt|registry-not-carried"  # a text file carries no registry: one finding for the route
+    if variant == "removed" and (observed == "row:spurious" or (spurious_removed and observed.startswith("prefixed:"))):
+        return f"C11|{route}|removed-default-back"     # the removed default row is back, and answers again
+    return f"C11|{route}|{variant}|{cls}|{observed}"
+
+
+def _work_contents(jobs):
+    from unyt._unit_lookup_table import default_unit_symbol_lut as dflt
+
+    core.quiet_numpy()
+    out, seen_keys = [], set()
+    for job in jobs:
+        label, decls, usym, data, route, proto = job
+        src = content_src(decls, usym, data, route, proto)
+        variants = {d[1]: decl_variant(d, dflt) for d in decls}
+        info = {"registry": label, "unit": usym, "data": data, "route": route, "protocol": proto}
+        ns = fresh_ns()
+        fails, counts = [], {}
+        build, _sep, rest = src.rpartition("r = restore_contents(")
+        try:
+            exec(build, ns)  # noqa: S102 - harness-generated source
+        except Exception as e:  # noqa: BLE001
+            out.append((job, None, {"contents:case-not-buildable:" + type(e).__name__: 1}))
+            continue
+        try:
+            exec(_sep + rest, ns)  # noqa: S102
+            obs = L.contents_check(ns["q"], ns["r"])
+        except Exception as e:  # noqa: BLE001
+            usv = variants.get(usym, variants.get(usym[1:], "untouched"))
+            key = ("C11|saveLoadTxt|registry-not-carried" if route == "saveLoadTxt" and usv.startswith("added")
+                   else f"C11|{route}|{usv}|{L.symbol_class(usym if usym in variants else usym[1:] if usym[1:] in variants else usym)}|raises:{type(e).__name__}")
+            fails.append((key, f"{route} (protocol {proto}), registry {label}: restoring a {usym} object or reading the restored registry raised {type(e).__name__}: {e}",
+                          dict(info, python=PRE + src + "contents_check(q, r)\n")))
+            obs = []
+            counts["contents:raises"] = 1
+        spurious = {k for k, o, _d in obs if o == "row:spurious"}
+        for sym, observed, detail in obs:
+            variant = variants.get(sym, "untouched")
+            key = content_key(route, variant, L.symbol_class(sym), observed, sym in spurious)
+            counts["contents:differs:" + observed] = counts.get("contents:differs:" + observed, 0) + 1
+            if (key, label) in seen_keys:
+                continue
+            seen_keys.add((key, label))
+            fails.append((key, f"{route} (protocol {proto}), registry {label}: {sym} ({variant}): {observed}: {detail}",
+                          dict(info, symbol=sym, observed=observed, python=PRE + src
+                               + f"obs = contents_check(q, r)\nbad = [o for o in obs if o[0] == {sym!r} and o[1] == {observed!r}]\n"
+                               + "assert not bad, ('the restored registry does not have the contents of the original', bad)\n")))
+        if not obs and not fails:
+            counts["contents:equal"] = 1
+        for v in set(variants.values()):
+            counts["contents:variant:" + v] = counts.get("contents:variant:" + v, 0) + 1
+        out.append((job, fails, counts))
+    # one replay per key is enough for the report: keep the first of each key in this chunk
+    kept = set()
+    for _job, fails, _c in out:
+        if fails:
+            fails[:] = [f for f in fails if not (f[0] in kept or kept.add(f[0]))]
+    return out
 
 
 # ----------------------------------------------------------------------------------------
@@ -908,6 +1079,10 @@ def run(tier, seed):
     pool = multiprocessing.get_context("fork").Pool(nproc)
     pending = pool.map_async(_work, chunks(jobs, nproc * 8))
     pool.close()
+    cjobs = content_plan(tier, rng)
+    cpool = multiprocessing.get_context("fork").Pool(4)
+    cpending = cpool.map_async(_work_contents, chunks(cjobs, 4 * 6))
+    cpool.close()
     # --- correspondence (this process) ----------------------------------------------------------
     if chk.proof["build_ok"] or os.path.exists(os.path.join(core.LEAN, ".lake", "build", "bin", "drv_c11")):
         try:
@@ -935,6 +1110,21 @@ def run(tier, seed):
         for key, what, replay in fails:
             chk.fail(key, what, replay)
     chk.extra["oracle_wall_s"] = round(time.time() - t0, 1)
+    crecs = []
+    for part in cpending.get():
+        crecs.extend(part)
+    cpool.join()
+    for job, fails, counts in crecs:
+        label, decls, usym, data, route, proto = job
+        for b, n in counts.items():
+            chk.count(b, n)
+        if fails is None:
+            continue
+        chk.case(("contents",) + job, None)
+        chk.count("contents:route:" + route)
+        for key, what, replay in fails:
+            chk.fail(key, what, replay)
+    chk.extra["contents_wall_s"] = round(time.time() - t0, 1)
     chk.assumptions = [
         "sympy's parser/printer round trip of unit expressions (C20) and the identity of sympy objects after pickle/deepcopy are observed, not derived",
         "pickle protocols 0 and 1 are refused by sympy itself (NotImplementedError in sympy.core.basic) and are outside the claim",
@@ -943,5 +1133,8 @@ def run(tier, seed):
     rule = ("(family, unit, data, warm/cold, route, pickle protocol, container) cases: every route x core units of 7 registry families "
             "(default, added symbols, modified default, removed default, unit system, objects created before modify) + seeded table symbols and "
             "generated compounds; each case runs the 44-operation follow-up battery on original and restored in both orders; "
+            "registry-contents cases (registry, unit, data, route incl. registry-only routes, protocol): default symbols re-declared with ONE field "
+            "changed (value, dimensions, offset, prefixable flag either way, tex) singly and together, added / modified / removed symbols, "
+            "rows and prefixed spellings compared field by field; "
             "distinct = distinct case tuples and distinct (restore|follow, family, unit, data, route, op) correspondence lines")
     return chk.finish(rule)
